@@ -205,6 +205,14 @@ def run_e3(sc, scratch=None):
                     f = rig.chain_factor(ci)
                     ou = rig.out_units(ci)
                     want = tuple(convert(x * f, ou, cu) for x in exp[1])
+                    # absolute tolerance relative to the magnitude of the terms that were combined (integrals are
+                    # differences of large products; unit conversion rescales everything)
+                    span = 1.0
+                    if any(a["kind"] == "sum" and a.get("per_time", True) for a in sc["consumers"][ci]["chain"]):
+                        span = max(1.0, float(rig.pubs[-1][0] - rig.pubs[0][0]) * 3600.0)
+                    vmax = max([abs(p[1]) for p in rig.pubs] + [1.0]) + (float(np.max(np.abs(rig.base))) if rig.base is not None else 0.0)
+                    scl = abs(convert(1.0, ou, cu) - convert(0.0, ou, cu)) if cu else 1.0
+                    atol = 1e-9 * vmax * span * abs(f) * scl * 4.0 + 1e-12
                     if len(want) > 1:
                         probe("tie_midpoint")
                     if act[0] == "val":
@@ -220,12 +228,12 @@ def run_e3(sc, scratch=None):
                                 fac = convert(1.0, ou, cu) if cu else 1.0
                                 exp_arr = (rig.base * (w1 - w0) * f) * fac + want[0]
                                 # (offset units are not used with gridded payloads)
-                                if not np.allclose(arr[0], exp_arr, rtol=1e-9, atol=1e-9):
+                                if not np.allclose(arr[0], exp_arr, rtol=1e-9, atol=atol):
                                     v("link-value", "grid-value",
                                       f"event {ei}: consumer {ci} pull at {t}: gridded result differs from the definition "
                                       f"(first element {arr[0].reshape(-1)[0]} vs {exp_arr.reshape(-1)[0]})", consumer=ci)
                                 probe("grid_value_compared")
-                        elif not isinstance(act[1], float) or not any_close(act[1], want):
+                        elif not isinstance(act[1], float) or not any(abs(act[1] - w_) <= atol + 1e-9 * max(abs(act[1]), abs(w_)) for w_ in want):
                             v("link-value", "value", f"event {ei}: consumer {ci} pull at {t}: got {act[1]}, ideal link gives {want}",
                               consumer=ci)
                         want_u = cu or ou
